@@ -66,7 +66,9 @@ class Session:
             def create_connection(addr, *a, **k):
                 sess.created += 1
                 if sess.env.get("refuse_connection"):
+                    sess.env["refused_last"] = True
                     raise _socket.error("connection refused (injected)")
+                sess.env["refused_last"] = False
                 if sess.created > 1:
                     # a second connect() on the same object gets a fresh connection to a fresh server
                     nxt = sess.env.get("next_server")
